@@ -283,6 +283,9 @@ def iter_setup(eng):
     for n in NL:
         eng.assume(n.z >= 0)
     eng.spec_env['NLINES'] = NL
+    FINAL_NL = [named(BOOL, 'file_%d_ends_with_newline' % h) for h in range(2)]
+    CRLF = [named(BOOL, 'file_%d_has_crlf_line_ends' % h) for h in range(2)]
+    eng.spec_env['FINAL_NL'], eng.spec_env['CRLF'] = FINAL_NL, CRLF
 
     def line(h, i):
         return segstr.register_atom(eng, named(STR, 'line_%d_%d' % (h, i)), ' \t\n\r\x0b\x0c')
@@ -292,7 +295,10 @@ def iter_setup(eng):
         i = e.ghost['pos'][h]
         e.ghost['pos'][h] = i + 1
         if e.branch(NL[h].z > i):
-            return segstr.build([line(h, i), '\n'])
+            # the last line of a file may end at end-of-file without a newline; a file may use CRLF line ends
+            if e.branch(z3.And(NL[h].z == i + 1, z3.Not(FINAL_NL[h].z))):
+                return line(h, i)
+            return segstr.build([line(h, i), '\r\n' if e.branch(CRLF[h].z) else '\n'])
         return ''
     stubs.STUBS['LineSource'] = {'methods': {'readline': readline}, 'props': {}, 'setters': {}}
     eng.spec_env['LINE'] = Builtin('LINE', lambda e, a, k, n: line(a[0], a[1]))
@@ -321,10 +327,58 @@ fastq_next = Contract(
     },
     # the iteration stops exactly when some file has no further (non-empty) header line
     raises={'StopIteration': 'any(NLINES[h] < 1 or len(LINE(h, 0)) == 0 for h in range(2))'},
-    assumptions=['text handles: readline returns the next line with its newline, "" at end of file (A4); lines contain no '
+    assumptions=['text handles: readline returns the next line with its newline (LF or CRLF; the last line possibly without), "" at end of file (A4); lines contain no '
                  'other whitespace (A7)'],
 )
 fastq_next.ensures['record_returned_only_if_all_headers_present'] = 'all(NLINES[h] >= 1 and len(LINE(h, 0)) > 0 for h in range(2))'
+
+
+def fastq_next_replay(inputs, clause):
+    """two real FASTQ files with the model's number of lines, line ends and final newline; first __next__ of the real
+    FastqIterator against the first four lines of each file"""
+    import os
+    import shutil
+    import tempfile
+    from pyvc.contract import import_real
+    FQI = import_real(FI, 'FastqIterator')
+    g = inputs.get('ghost') or {}
+    nl = [max(0, min(int(x), 12)) for x in (g.get('NLINES') or [4, 4])]
+    final = [bool(x) for x in (g.get('FINAL_NL') or [True, True])]
+    crlf = [bool(x) for x in (g.get('CRLF') or [False, False])]
+    d = tempfile.mkdtemp(prefix='c01_')
+    try:
+        files, want = [], []
+        for h in range(2):
+            lines = []
+            for i in range(nl[h]):
+                lines.append(['@read%d/%d' % (i // 4, h + 1), 'ACGTACGTAC', '+', 'IIIIIHHHH#'][i % 4])
+            end = '\r\n' if crlf[h] else '\n'
+            text = end.join(lines) + (end if (lines and final[h]) else '')
+            p = os.path.join(d, 'R%d.fastq' % (h + 1))
+            with open(p, 'w', newline='') as f:
+                f.write(text)
+            files.append(p)
+            want.append(lines[:4])
+        it = FQI(*files)
+        try:
+            recs = next(it)
+            got = [list(r) for r in recs]
+            obs = {'outcome': 'return', 'value': got, 'expected': want, 'lines': nl, 'final_newline': final, 'crlf': crlf}
+            ok = all(len(w) == 4 for w in want) and got == want
+        except StopIteration:
+            obs = {'outcome': 'raise', 'value': ['StopIteration'], 'lines': nl}
+            ok = any(n < 4 for n in nl)
+        finally:
+            for hd in it.handles:
+                hd.close()
+        if not ok:
+            return {'status': 'confirmed', 'observed': obs, 'failed': [{'clause': clause}]}
+        return {'status': 'not-reproduced', 'observed': obs}
+    finally:
+        shutil.rmtree(d, ignore_errors=True)
+
+
+fastq_next.replay = fastq_next_replay
 UNITS.append(fastq_next)
 
 # ------------------------------------------------------------------------------ FastqHandle.write (joint output files)
